@@ -209,6 +209,7 @@ struct Exec {
 	int nh, nc;
 	bool cl;                // application sets Content-Length itself
 	bool fb;                // full asynchronous buffering (initial)
+	int rid;                // FastCGI request id of this request
 	std::vector<Op> prog;
 	std::string progs;
 	// derived
@@ -221,7 +222,7 @@ struct Exec {
 	bool finalized;
 	volatile bool done;
 	std::vector<std::pair<std::string,std::string> > set;   // headers/cookies the application set (lower-case names)
-	Exec() : ka(false), app_async(false), gz(false), cache(false), nh(0), nc(0), cl(false), fb(true), raw(false),
+	Exec() : ka(false), app_async(false), gz(false), cache(false), nh(0), nc(0), cl(false), fb(true), rid(1), raw(false),
 		 total_body(0), stream_pos(0), finalized(false), done(false) {}
 };
 
@@ -568,7 +569,7 @@ static Result run_exec(Exec &x,Conn &c,Sched const &sched,std::string const &sch
 	{
 		vt::J j; j.s("e","Reset").i("id",g_exec_id).s("proto",x.proto).b("ka",x.ka).s("app",x.app_async?"async":"sync").s("mode",x.mode)
 		 .b("gz",x.gz).b("cache",x.cache && !x.raw).b("cl",x.cl).b("fb",x.fb).i("nh",x.nh).i("nc",x.nc).s("prog",x.progs).s("sched",sched_text)
-		 .i("total",x.total_body).b("reused",reused);
+		 .i("total",x.total_body).b("reused",reused).i("rid",x.rid);
 		logline(j.str());
 	}
 	pthread_mutex_lock(&g_sched_mx);
@@ -585,10 +586,10 @@ static Result run_exec(Exec &x,Conn &c,Sched const &sched,std::string const &sch
 			catch(std::exception const &e) { fprintf(stderr,"accept failed: %s\n",e.what()); _exit(5); }
 		});
 	}
-	std::string req = x.proto=="scgi" ? scgi_request(x) : x.proto=="fcgi" ? fcgi_request(x,1) : http_request(x);
+	std::string req = x.proto=="scgi" ? scgi_request(x) : x.proto=="fcgi" ? fcgi_request(x,x.rid) : http_request(x);
 	if(!send_all(c.cfd,req)) { logline(vt::J().s("e","Hang").s("why","send failed").b("done",false).b("idle",false).str()); res.hang = true; }
 
-	vfy::Deframer d(x.proto=="scgi" ? vfy::P_SCGI : x.proto=="fcgi" ? vfy::P_FCGI : vfy::P_HTTP, 1);
+	vfy::Deframer d(x.proto=="scgi" ? vfy::P_SCGI : x.proto=="fcgi" ? vfy::P_FCGI : vfy::P_HTTP, x.rid);
 	d.keep_conn = x.ka;
 	vfy::Inflater z;
 	vfy::RunDecoder rd(&g_body);
@@ -670,7 +671,7 @@ static Result run_exec(Exec &x,Conn &c,Sched const &sched,std::string const &sch
 		if(!hdr_logged)
 			logline(vt::J().s("e","Hdr").i("count",0).i("status",0).i("lead",d.lead).raw("fields","[]").str());
 		vt::J j; j.s("e","Frame").s("kind",d.kind()).b("closed",d.closed).i("term",d.terminators).i("endreq",d.endreq).i("stdoutend",d.stdout_end)
-		 .b("padok",d.padok).b("align",d.aligned).i("trail",d.trail).i("lead",d.lead).s("bad",d.bad).b("eof",res.eof).b("keep",d.expect_keep())
+		 .b("padok",d.padok).i("badid",d.badid).b("align",d.aligned).i("trail",d.trail).i("lead",d.lead).s("bad",d.bad).b("eof",res.eof).b("keep",d.expect_keep())
 		 .b("gzip",gzip).b("gzend",gzip ? z.ended() && !z.failed() : true).i("recs",d.records).i("maxrec",d.maxrec)
 		 .i("calls",ncalls).i("short",nshort).i("eagain",neag);
 		logline(j.str());
@@ -841,19 +842,23 @@ int main(int argc,char **argv)
 		if(st.compare(0,6,"sweep:")==0) { sweep = atol(st.c_str()+6); scheds.push_back("all"); }
 		else scheds.push_back(st);
 		bool nonblocking = x.mode=="async" || x.mode=="async_raw";
+		int chain = kv.count("chain") ? atoi(kv["chain"].c_str()) : 2;
+		if(!x.ka || chain < 1) chain = 1;
 		Conn c;
 		for(size_t si=0;si<scheds.size();si++) {
-			Sched sc = parse_sched(scheds[si]);
-			// with keep-alive the same connection serves two requests: the 2nd one asks to close
-			Exec x1 = x;
-			bool reused = c.open;
-			Result r = run_exec(x1,c,sc,scheds[si],reused);
-			nexec++; if(r.hang) nhang++;
-			if(r.keep) {
-				Exec x2 = x; x2.ka = false;
-				Sched sc2 = parse_sched(scheds[si]);
-				Result r2 = run_exec(x2,c,sc2,scheds[si],true);
-				nexec++; if(r2.hang) nhang++;
+			// with keep-alive the same connection serves a chain of requests (default 2), the last one asks to close;
+			// on FastCGI every request of the chain has another request id (1, 2, 1, ...)
+			static const int rids[3] = { 1, 2, 1 };
+			Result r;
+			for(int ci=0;ci<chain;ci++) {
+				Exec xi = x;
+				xi.ka = x.ka && ci+1 < chain;
+				xi.rid = rids[ci % 3];
+				Sched sci = parse_sched(scheds[si]);
+				Result ri = run_exec(xi,c,sci,scheds[si],c.open);
+				nexec++; if(ri.hang) nhang++;
+				if(ci==0) r = ri;
+				if(!ri.keep) break;
 			}
 			if(c.open) { close(c.cfd); c.open = false; }
 			if(si==0 && sweep >= 0 && !r.hang) {
